@@ -8,6 +8,7 @@ import TrimeshVerif.Proofs.Remesh
 import TrimeshVerif.Proofs.GeomRat
 import TrimeshVerif.Proofs.Winding
 import TrimeshVerif.Proofs.ToSize
+import TrimeshVerif.Generated.C18Table
 namespace TV.C18
 open TV.Mat3 TV.Moments TV.Affine TV.Remesh
 
@@ -155,5 +156,33 @@ example : (toSize (4 : ℚ) 2 (((0, 0, 0), (4, 0, 0), (0, 4, 0)) : TV.ToSize.Tri
   constructor <;> decide +kernel
 
 end tosize
+
+section source_pattern
+
+/-- column `k` of a face row -/
+def corner (f : Face) : Nat → Nat
+  | 0 => f.1
+  | 1 => f.2.1
+  | _ => f.2.2
+
+/-- one row of `np.column_stack([...])` for face `f`: a face column, or the midpoint of the edge that
+    `faces_to_edges` lists at position `k` (its two end-point columns are `cols[2k]`, `cols[2k+1]`) -/
+def stackedRow (pat : List (Bool × Nat)) (cols : List Nat) (mid : Nat → Nat → Nat) (f : Face) : List Nat :=
+  pat.map (fun p => if p.1 then mid (corner f (cols.getD (2 * p.2) 0)) (corner f (cols.getD (2 * p.2 + 1) 0))
+                    else corner f p.2)
+
+/-- `.reshape((-1, 3))` -/
+def triples : List Nat → List Face
+  | a :: b :: c :: t => (a, b, c) :: triples t
+  | _ => []
+
+/-- **(G) the child faces `remesh.subdivide` stacks are the model's**: the column pattern of the
+    `np.column_stack` call and the edge order of `geometry.faces_to_edges`, both read from the current source by
+    `ast`, produce for every face and every midpoint numbering exactly `childFaces` - the four children
+    `[a, m_ab, m_ca], [m_ab, b, m_bc], [m_ca, m_bc, c], [m_ab, m_bc, m_ca]` every C18 subdivision theorem is about -/
+theorem C18_child_pattern_of_source (mid : Nat → Nat → Nat) (f : Face) :
+    triples (stackedRow TV.Generated.C18.childPattern TV.Generated.C18.edgeColumns mid f) = childFaces mid f := rfl
+
+end source_pattern
 
 end TV.C18
